@@ -96,6 +96,31 @@ CLAIMS.update({
         note=TRUST + 'C15: decoder replaced by a stub in the contract units (decoding is C12); bounded N is tiny because the real builder/list heap code is expensive in CBMC.'),
 })
 
+CLAIMS.update({
+    'C03': dict(
+        text=('Segmentation invariance is decomposed into sufficient conditions, each machine-checked where a contract can carry it: L1 buffering is transparent (htp_connp_req/res_buffer on the real code: '
+              'buffered and appended bytes are preserved in order, consumer catches up); L2 every look-ahead that is under contract defers when the byte is not in the chunk - chunk-size lines '
+              '(DATA_BUFFER with nothing decided or counted), body states (consumption = min(owed, available), independent of chunk geometry), and the header-folding look-ahead of REQ_HEADERS / RES_HEADERS '
+              '(bounded unit on the real state function: a header line ending exactly at the chunk end is kept pending). L3 (no other dependence on chunk geometry) is a manual audit. The two-run relational '
+              'claim over the whole pipeline is not a contract and is not decided. One genuine violation found this way was repaired (response folding at a chunk boundary).'),
+        design='4/C03', technique='CBMC lemma / bounded harnesses on the real buffer and header state functions; dfcc contracts on the chunk-size and body states',
+        note=TRUST + 'C03: look-ahead sites NOT under any unit: RES LF-CR line ending, next_no_lf, RES_LINE, REQ_PROTOCOL HTTP/0.9 probe, response chunk-length probe (all affect malformed or non-folded input only, by reading). L3 unchecked.'),
+    'C19': dict(
+        text=('Frame conditions: every function enforced by a dfcc contract in the parser, transaction, decoder and urlencoded layers is proved (assigns-clause checking on every assignment) to write nothing outside '
+              'its frame, and a mechanical scan shows that no assigns clause names the shared configuration, a hook list or a static table: all mutable parse state is reachable from the connection parser. '
+              'Call-by-call interleaving on one thread is then independence by construction. Freedom from data races under threads follows on paper (disjoint write sets, shared reads only); CBMC contracts have no '
+              'thread model and no schedule is explored.'),
+        design='4/C19', technique='dfcc frame (assigns) obligations of all enforced contracts + syntactic scan of the assigns clauses',
+        note=TRUST + 'C19: functions not under contract are outside the frame claim; thread schedules are not explored.'),
+    'C01': dict(
+        text=('Union of the safety obligations (bounds, pointer validity, pointer overflow, signed/unsigned overflow, conversion, shift, division, double free, invalid free; leaks where the harness owns everything) and of the '
+              'termination obligations (decreases clauses) of every unit of every other property, under well-formedness preconditions that the callers\' post-conditions establish; allocation may fail everywhere. '
+              'Scope = the functions under contract listed in evidence; the rest of htp/*.c is NOT verified (line-oriented state functions, RES_BODY_DETERMINE, transcoder, file extraction, LZMA/zlib internals, debug printers). '
+              'Callbacks that destroy the transaction they are called for are outside the callback assumption.'),
+        design='4/C01', technique='CBMC safety and termination obligations of all contract / lemma units (dfcc), bounded units reported separately',
+        note=TRUST),
+})
+
 NOT_YET = 'not yet built in this session (planned in DESIGN.md section 4); no check is registered, so nothing is claimed'
 NA = {
     'C08': 'amortised cost over a whole stream is not program state expressible at a function boundary; per-loop variants are proved and reported under C01 (DESIGN.md section 5)',
